@@ -290,6 +290,57 @@ func hdrOracle(o *common.Out, id string, h0 protocol.Header, op string, v uint64
 	return true
 }
 
+// c01Big: round trip of a message whose payload is far beyond what is worth handing to the model as a byte list
+// (several MiB): property oracle only - Read(Encode(m)) = m for both encoders.
+func c01Big(o *common.Out, id string, size, ct int, seed uint64) {
+	abstract := fmt.Sprintf("big|%d|%d|%d", size, ct, seed)
+	o.Begin(id, abstract)
+	rr := common.NewRand(seed)
+	// compressible but not trivial: a random 4 KiB block repeated with a counter stamped into each copy
+	block := rr.Bytes(4096)
+	payload := make([]byte, size)
+	for off := 0; off < size; off += len(block) {
+		n := copy(payload[off:], block)
+		if n >= 4 {
+			payload[off], payload[off+1], payload[off+2] = byte(off>>12), byte(off>>20), byte(off>>28)
+		}
+	}
+	build := func() *protocol.Message {
+		m := protocol.NewMessage()
+		m.SetMessageType(protocol.Request)
+		m.SetSerializeType(protocol.SerializeNone)
+		m.SetCompressType(protocol.CompressType(ct))
+		m.SetSeq(seed)
+		m.ServicePath, m.ServiceMethod = "Big", "Echo"
+		m.Metadata = map[string]string{"k": "v"}
+		m.Payload = payload
+		return m
+	}
+	check := func(name string, frame []byte) {
+		got, err := protocol.Read(bytes.NewReader(frame))
+		if err != nil {
+			o.Fail(id, "roundtrip-error", fmt.Sprintf("%s: Read(Encode(m)) failed for a %d-byte payload, compress type %d: %v", name, size, ct, err), abstract)
+			return
+		}
+		if !bytes.Equal(got.Payload, payload) || got.ServicePath != "Big" || got.ServiceMethod != "Echo" || got.Metadata["k"] != "v" || got.Seq() != seed {
+			o.Fail(id, "roundtrip-differs", fmt.Sprintf("%s: a %d-byte payload (compress type %d) decoded to %d bytes (md5 %s, want %s)", name, size, ct,
+				len(got.Payload), show(got.Payload), show(payload)), abstract)
+		}
+	}
+	data := build().EncodeSlicePointer()
+	check("pooled", append([]byte{}, (*data)...))
+	protocol.PutData(data)
+	var buf bytes.Buffer
+	if _, err := build().WriteTo(&buf); err != nil {
+		o.Fail(id, "roundtrip-error", fmt.Sprintf("stream: WriteTo failed: %v", err), abstract)
+	} else {
+		check("stream", buf.Bytes())
+	}
+	o.ImplOnly(id, abstract, true)
+	o.Count(fmt.Sprintf("compress=%d", ct))
+	o.Count("payload<=big")
+}
+
 func runC01(r *common.Rand, tier string, o *common.Out, replay string) {
 	// a second registered compressor besides gzip, as the property quantifies over "any registered compressor"
 	protocol.Compressors[protocol.CompressType(2)] = &protocol.SnappyCompressor{}
@@ -304,6 +355,14 @@ func runC01(r *common.Rand, tier string, o *common.Out, replay string) {
 			h2 := h
 			hdrApply(&h2, p[2], v)
 			o.Case("replay", fmt.Sprintf("hdr %s %s %d", hx(h[:]), p[2], v), hdrView(&h2), true)
+			return
+		}
+		if strings.HasPrefix(replay, "big|") {
+			p := strings.Split(replay, "|")
+			size, _ := strconv.Atoi(p[1])
+			ct, _ := strconv.Atoi(p[2])
+			seed, _ := strconv.ParseUint(p[3], 10, 64)
+			c01Big(o, "replay", size, ct, seed)
 			return
 		}
 		c01Enc(o, "replay", c01parse(replay))
@@ -390,5 +449,15 @@ func runC01(r *common.Rand, tier string, o *common.Out, replay string) {
 		}
 		m.payload = genPayload(r, tier)
 		c01Enc(o, fmt.Sprintf("m%d", i), m)
+	}
+	// (4) payloads of several MiB, every supported compression type (oracle only)
+	bigSizes := []int{1<<20 + 1, 3<<20 + 17}
+	if tier == "thorough" {
+		bigSizes = []int{1 << 20, 1<<20 + 1, 2<<20 - 1, 3<<20 + 17, 5 << 20, 9<<20 + 3}
+	}
+	for i, size := range bigSizes {
+		for ct := 0; ct <= 2; ct++ {
+			c01Big(o, fmt.Sprintf("b%d-%d", i, ct), size, ct, r.U64())
+		}
 	}
 }
